@@ -19,7 +19,7 @@ from ..tables import rule
 from . import analysis
 
 rule("C16.i", "a wrapper clips the window of a wrapped asset by intersection: start = max(start, start), end = min(end, end)", floor=2,
-     props=["C16", "C08"])
+     props=["C16", "C08", "C02"])
 rule("C08.h", "the intersection of the wrapper's window with the window of a wrapped asset covers the case that the wrapped asset has no "
               "bound of its own (None): the wrapper's bound applies", floor=2, props=["C08", "C16"])
 rule("C08.i", "an optional bound (start / end and other attributes kept from a constructor parameter that defaults to None) that is an operand "
